@@ -71,7 +71,53 @@ pub fn gen_any(ctx: &mut Ctx) -> Option<AnyProg> {
     Some(AnyProg { ctx: c, input_types, ops, hash, rejected, add_panics })
 }
 
+/// custom operations given ill-fitting arguments: must be rejected with Err when the node is added
+fn custom_bad_args(ctx: &mut Ctx) {
+    use crate::gen::custom::{make_family_op, FAMILIES};
+    use ciphercore_base::data_types::{array_type, named_tuple_type, scalar_type, tuple_type, vector_type, BIT, INT64, UINT64, UINT8};
+    let total = ctx.q(4000, 60000);
+    ctx.cases("custom_bad_args", total, |ctx, idx| {
+        let fam = FAMILIES[(idx % FAMILIES.len() as u64) as usize];
+        let c = create_context().unwrap();
+        let g = c.create_graph().unwrap();
+        let bits = array_type(vec![2, 8], BIT);
+        let pool: Vec<Type> = vec![
+            bits.clone(),
+            scalar_type(BIT),
+            scalar_type(INT64),
+            array_type(vec![3], INT64),
+            array_type(vec![3], UINT64),
+            array_type(vec![2, 2], UINT8),
+            tuple_type(vec![]),
+            tuple_type(vec![bits.clone(), bits.clone()]),
+            vector_type(2, bits.clone()),
+            vector_type(0, scalar_type(INT64)),
+            named_tuple_type(vec![("a".into(), array_type(vec![3], INT64)), ("b".into(), array_type(vec![3], UINT64))]),
+            named_tuple_type(vec![("a".into(), tuple_type(vec![]))]),
+            array_type(vec![3, 7], BIT),
+            array_type(vec![1], BIT),
+        ];
+        let n_args = ctx.rng.range(0, 4) as usize;
+        let ts: Vec<Type> = (0..n_args).map(|_| ctx.rng.pick(&pool).clone()).collect();
+        let args: Vec<_> = ts.iter().map(|t| g.input(t.clone()).unwrap()).collect();
+        let op = make_family_op(fam, ctx.rng.below(100));
+        ctx.count("custom_op_calls_with_random_arguments", 1);
+        let r = guard(|| g.custom_op(op, args));
+        match r {
+            Ok(Ok(_)) => ctx.count("custom_op_accepted", 1),
+            Ok(Err(_)) => ctx.count("custom_op_rejected", 1),
+            Err(p) => ctx.violation(
+                &format!("C09|custom_op_panic|{}|{}", fam, p.site),
+                json!({"what": format!("adding {} with arguments {:?} panicked instead of returning an error: {}",
+                                       fam, ts.iter().map(|t| format!("{}", t)).collect::<Vec<_>>(), p.message)}),
+            ),
+        }
+        ctx.case_done(crate::rng::mix(&[idx, 4242]), false);
+    });
+}
+
 pub fn run(ctx: &mut Ctx) {
+    custom_bad_args(ctx);
     let mut rec = Recorder::new(ctx, "c09");
     let total = ctx.q(12000, 300000);
     ctx.cases("gany", total, |ctx, idx| {
